@@ -808,7 +808,7 @@ class Executor:
                 if k == "call":
                     _, dest, callee, argops, nxt = stmt
                     argv = [self.operand(st, fid, o, subst) for o in argops]
-                    res = self.call(st, callee, argv, subst)
+                    res = self.call(st, callee, argv, subst, caller=body)
                     if len(res) == 1 and not res[0].panic:
                         st = res[0].state
                         if dest is not None:
@@ -834,16 +834,28 @@ class Executor:
         return outs
 
     # ------------------------------------------------------------------ calls
-    def call(self, st, callee, args, subst):
-        """-> list of Outcome"""
+    def call(self, st, callee, args, subst, caller=None):
+        """-> list of Outcome.  `caller`: the body issuing the call; an impl method that calls the
+        same method name on the same type with the same parameter types is a wrapper delegating to
+        another trait (generated `PartialEq::eq` -> `<Self as HasRefUnit>::eq`), so the caller itself
+        is never a candidate."""
         callee = callee.strip()
+        self.depth = getattr(self, "depth", 0) + 1
+        try:
+            if self.depth > 60:
+                raise Unsupported("call depth exceeded at " + callee)
+            return self._call(st, callee, args, subst, caller)
+        finally:
+            self.depth -= 1
+
+    def _call(self, st, callee, args, subst, caller):
         m = _TRAIT_CALL.match(callee)
         if m:
             tyraw, trait, targs, meth = m.group(1), m.group(2), m.group(3), m.group(4)
             ty = self.resolve_ty(tyraw, subst)
             trait_last = trait.rsplit("::", 1)[-1]
             argtys = [self.tyof(st, a) for a in args]
-            b, binds = self.find_impl(meth, ty, argtys)
+            b, binds = self.find_impl(meth, ty, argtys, exclude=caller)
             if b is not None:
                 return self.exec_body(st, b, args, binds)
             d = self.P.fns.get("%s::%s" % (trait_last, meth))
@@ -860,20 +872,22 @@ class Executor:
             head = ty_head_args(ty)[0]
             if head not in ("Option", "Result", "bool", "Arguments", "Argument") and not tybase.startswith(("core::", "std::", "alloc::", "fpdec::")):
                 argtys = [self.tyof(st, a) for a in args]
-                b, binds = self.find_impl(meth, ty, argtys, inherent=True)
+                b, binds = self.find_impl(meth, ty, argtys, inherent=True, exclude=caller)
                 if b is not None:
                     return self.exec_body(st, b, args, binds)
             return self.summary(st, ty, None, meth, args, subst, callee)
         return self.summary(st, None, None, callee, args, subst, callee)
 
-    def find_impl(self, meth, ty, argtys, inherent=False):
-        key = (meth, ty, tuple(argtys), inherent)
+    def find_impl(self, meth, ty, argtys, inherent=False, exclude=None):
+        key = (meth, ty, tuple(argtys), inherent, exclude.index if exclude is not None else None)
         if key in self._impl_cache:
             return self._impl_cache[key]
         best = (None, None)
         thead = ty_head_args(ty)[0]
         for b in reversed(self.P.by_method.get(meth, [])):
             if "<impl at" not in b.name or "{closure" in b.name:
+                continue
+            if exclude is not None and (b is exclude or (b.name == exclude.name and b.nparams == exclude.nparams)):
                 continue
             if len(b.nparams) != len(argtys):
                 continue
